@@ -8,6 +8,7 @@ import (
 	"errors"
 	"fmt"
 	"math/rand"
+	"os"
 	"sort"
 	"strings"
 	"sync"
@@ -850,7 +851,12 @@ func (e *l2Env) rebroadcast() {
 	}
 	for round := 1; round <= 2; round++ {
 		acc, _ := pending()
-		if round > 1 && !e.settle() {
+		// Block events still queued from the initial sync start rounds of
+		// their own as soon as a transaction is pending, and a block event
+		// that arrives while a round is running starts none (by design):
+		// announce only when the network has been at rest for longer than
+		// BroadcastTimeout.
+		if !e.settle() {
 			e.res.Inconcl("network never at rest before the next block")
 			return
 		}
@@ -883,6 +889,14 @@ func (e *l2Env) rebroadcast() {
 			// issued while the client is provably at rest, produces none
 			// either.
 			e.res.Count("l2_rebroadcast_second_trigger", 1)
+			if os.Getenv("VERIF_L2_DUMP") != "" {
+				for _, c := range missed {
+					fmt.Fprintf(os.Stderr, "MISS round %d tx %s missing=%v connected=%d\n", round, c.Hash.String()[:8], e.missingPeers(c, seq), e.w.Svc.ConnectedCount())
+				}
+				for _, l := range e.w.Log.Tail(150) {
+					fmt.Fprintln(os.Stderr, l)
+				}
+			}
 			seq2, ok := e.announce()
 			if !ok {
 				return
@@ -1188,7 +1202,9 @@ func (e *l2Env) finish() {
 	res.Count("l2_events_recorded", int64(len(evs)))
 	res.Count("l2_network_events", e.w.Log.Len())
 	sort.Strings(shapes)
-	if len(e.views) > 0 && (e.k < 3 || e.k%37 == 0) {
+	if os.Getenv("VERIF_L2_DUMP") != "" {
+		res.Sample = map[string]any{"l2_scenario": e.k, "family": e.fam, "calls": e.views}
+	} else if len(e.views) > 0 && (e.k < 3 || e.k%37 == 0) {
 		n := len(e.views)
 		if n > 4 {
 			n = 4
